@@ -754,7 +754,7 @@ int main(int argc, char** argv) {
 
   int chr;
   // while ((chr = getopt(argc, argv, "A:CDEF:G:H:I:N:PR:ST:U:V:X:Y:Z:a:b:d:e:f:g:h:m:n:r:s:t:u:v:w:x:z:"))
-  while ((chr = getopt(argc, argv, "A:CDEF:G:H:I:N:PR:ST:U:Z:a:b:c:d:e:f:g:h:m:n:r:s:t:u:w:x:z:"))
+  while ((chr = getopt(argc, argv, "A:CDEF:G:HIN:PR:ST:U:Z:a:b:c:d:e:f:g:h:m:n:r:s:t:u:w:x:z:"))
 	 != -1)
     switch (chr) {
     case 'A':
